@@ -134,9 +134,9 @@ JudgeBackward(e) ==
                     /\ S.hd[hh].n = n /\ hh \in ObsHandles(e)
                     /\ ObsOf(e, hh).g /\ (IsSome(S.grad[n]) => (Has(ObsOf(e, hh), "gt") /\ Exact /\ TMatch(ObsOf(e, hh).gt, plus(n).x)))
       stored == { n \in 1..root : MayStore(S, h, adj, n) /\ seen(n) }
-      S2 == Backward(S, h, seedOpt, stored)
+      S2 == BackwardWith(S, h, adj, stored)
       \* derivative invocations of user operations (C11)
-      expectU == { S.nodes[n].uid : n \in { m \in Evaluated(S, h, seedOpt) : S.nodes[m].op \in CustomOps } }
+      expectU == { S.nodes[n].uid : n \in { m \in EvaluatedWith(S, h, adj) : S.nodes[m].op \in CustomOps } }
       nodeOf(u) == CHOOSE n \in 1..root : S.nodes[n].uid = u /\ S.nodes[n].op \in CustomOps
       evs == e.evals
       gotU == { evs[i].u : i \in 1..Len(evs) }
